@@ -30,8 +30,8 @@ META = {
                 "not an exploration; it is a precondition for the comparison, reported separately in the evidence.",
     },
     "C14": {
-        "text": "io_epoll_context runs unmodified over a simulated kernel (kit/ksim: epoll, eventfd, timerfd, byte-capacity pipes, "
-                "virtual clock) reached through link-time --wrap seams, so readiness order, wake-ups, timer expiry, short transfers and "
+        "text": "io_epoll_context and io_uring_context run unmodified over a simulated kernel (kit/ksim: epoll, eventfd, timerfd, byte-capacity pipes, "
+                "in-memory files, an io_uring ring simulator serving io_uring_setup/enter and the three mmap regions, virtual clock) reached through link-time --wrap seams, so readiness order, wake-ups, timer expiry, short transfers and "
                 "failing syscalls are all scheduler choices.  Every interleaving up to the preemption bound of the I/O thread with remote "
                 "producers, stop requesters and the other end of the pipe is executed for: remote scheduling vs the idle/wake-up protocol, "
                 "run(stop_token), timers cancelled remotely / locally / at the due time, pipe reads and writes of all size relations, "
@@ -41,7 +41,8 @@ META = {
                 "The simulated kernel is itself checked against the real kernel on every operation sequence up to depth 5 (ksim_conf).",
         "technique": "stateless model checking of the implementation (preemption-bounded exhaustive schedule enumeration) over a simulated kernel "
                      "bound to the real one by an exhaustive conformance enumeration",
-        "note": "io_uring_context: see DESIGN.md (ring simulator).  Pipe capacity is counted in bytes (the real kernel counts page slots); "
+        "note": "io_uring: ring sizes are a parameter of the simulator (4 / 2 entries instead of 256) so that queue-full and completion-budget paths are reachable; "
+                "one known finding (cancellation starved when in-flight operations fill the completion queue) is listed in KNOWN_FINDINGS.txt.  Pipe capacity is counted in bytes (the real kernel counts page slots); "
                 "conformance is established for whole-page transfers.  Two concurrent operations of the same kind on one descriptor are not "
                 "driven (the context documents one registration per descriptor).",
     },
